@@ -44,6 +44,7 @@ MODULES = {
         "shape3d_size", "coords_intersect", "get_offset_block_coords", "get_prev_job_output_volume",
         "get_first_job_input_volume", "get_address", "get_strides", "get_address_range",
         "get_h_ranges", "get_address_ranges_for_area", "ranges_overlap", "range_lists_overlap",
+        "get_address_ranges",
         "check_alignment", "check_size"],
         {"__tuples__": {"PointXYZ": ["x", "y", "z"], "NpuShape3D": ["height", "width", "depth"],
                         "NpuAddressRange": ["region", "address", "length"]},
@@ -51,6 +52,7 @@ MODULES = {
          "get_address_range": {"records": ["fm", "strides"]},
          "get_h_ranges": {"records": ["fm", "strides"]},
          "ranges_overlap": {"records": ["range1", "range2"]},
+         "get_address_ranges": {"records": ["fm"]},
          "get_address_ranges_for_area": {"records": ["fm", "start", "end"], "record_tuples": {"fm.shape": "NpuShape3D"}},
          "get_prev_job_output_volume": {"records": ["ofm", "ofm_block"]},
          "get_address": {"records": ["fm", "strides"], "record_lists": ["fm.tiles.addresses"]},
